@@ -461,24 +461,39 @@ def oracle_axi(run, P="C09"):
     wcmd_t = [e[1] for e in cmds if e[3]]              # native write commands accepted, in order (one per W beat)
     nwl = [e for e in s.log if e[0] == "W"]            # native writes performed, in order
     wt = [e[1] for e in nwl]
-    if rmw:
-        wi = -1
-        for ci, e in enumerate(cmds):
-            if not e[3]:
-                continue
-            wi += 1
-            if wi >= len(wbeats):
-                break
-            if wbeats[wi][5] != full:
-                prev = cmds[ci - 1] if ci else None
-                if prev is None or prev[3] or prev[4] != e[4] or e[4] != wbeats[wi][3]:
-                    kk = wbeats[wi][0]
-                    if m.acc_t[kk] is None or e[1] <= m.acc_t[kk]:
-                        labels.append("rmw_started_before_aw")           # partial beat processed before its AW handshake
-                    else:
-                        labels.append("rmw_not_at_partial_beat_address")  # read-modify-write cycle not performed on the partial beat's own word
-                    break
     wd = cfg["wdepth"]
+    if rmw:
+        # follow the native writes; for a partial-strobe beat the word written must be (previous content of ITS word) merged
+        # with the beat's strobed bytes.  If not, name what it was merged with.
+        memsim = {}
+
+        def cur(wa):
+            v = memsim.get(wa)
+            return s.bg(wa, dw) if v is None else v
+
+        def merge(old, d, st):
+            for b_ in range(nb):
+                if (st >> b_) & 1:
+                    old = (old & ~(0xff << (8 * b_))) | (d & (0xff << (8 * b_)))
+            return old
+        hist = {}
+        wci = [ci for ci, e in enumerate(cmds) if e[3]]
+        for gi, e in enumerate(nwl):
+            if not e[6]:
+                continue
+            if gi < len(wbeats) and not labels:
+                kk, wn, j, wa, d, st = wbeats[gi]
+                if st != full and (e[3] != wa or e[4] != merge(cur(wa), d, st)):
+                    prev = cmds[wci[gi] - 1] if gi < len(wci) and wci[gi] > 0 else None
+                    t_rmw = prev[1] if (prev is not None and not prev[3]) else (wcmd_t[gi] if gi < len(wcmd_t) else None)
+                    if m.acc_t[kk] is None or (t_rmw is not None and t_rmw <= m.acc_t[kk]):
+                        labels.append("rmw_started_before_aw")           # partial beat processed before its AW reached the bridge
+                    elif any(e[4] == merge(old, d, st) for h in range(max(0, gi - wd - 2), gi) for old in hist.get(wbeats[h][3], []) + [cur(wbeats[h][3])]):
+                        labels.append("rmw_merged_with_word_of_earlier_buffered_beat")
+                    else:
+                        labels.append("rmw_wrong_merge")
+            hist.setdefault(e[3], []).append(cur(e[3]))
+            memsim[e[3]] = merge(cur(e[3]), e[4], e[5])
     # native write commands accepted whose data phase has not happened yet
     ev = sorted([(t, 0) for t in wcmd_t] + [(t, 1) for t in wt])
     cur = mx = 0
